@@ -1,0 +1,16 @@
+//go:build verif
+
+package pipeline
+
+// VerifHook is a verification hook (build tag "verif" only). When set, it is
+// called at fixed points of the pipeline goroutines with the name of the
+// point, the stage, and the block item concerned. The hook may block, which
+// lets a test driver hold a goroutine at that point. It must be set before
+// the pipeline is started.
+var VerifHook func(point string, stage string, seq uint64, raw []byte, val int64)
+
+func verifPoint(point, stage string, seq uint64, raw []byte, val int64) {
+	if h := VerifHook; h != nil {
+		h(point, stage, seq, raw, val)
+	}
+}
